@@ -100,3 +100,12 @@ def with_target(fnode, callee: str) -> str:
                     if nm == callee and isinstance(it.optional_vars, ast.Name):
                         return it.optional_vars.id
     raise Untranslatable(f"role with_target({callee}) not found")
+
+
+def assigned_dict_name(fnode, k: int = 0) -> str:
+    """the local dict `X` of the statement `X[<key>] = <value>` inside the k-th loop"""
+    n = _loops(fnode)[k]
+    for m in ast.walk(n):
+        if isinstance(m, ast.Assign) and len(m.targets) == 1 and isinstance(m.targets[0], ast.Subscript) and isinstance(m.targets[0].value, ast.Name):
+            return m.targets[0].value.id
+    raise Untranslatable(f"role assigned_dict_name({k}) not found")
